@@ -568,14 +568,24 @@ pub fn vec_any_opt_b256<F: Fn(&Option<B256>) -> bool>(v: &Vec<Option<B256>>, f: 
 // lands in the field of the same name); the arguments computed from the revm execution output (success flag, logs, gas used)
 // and the byte payloads (input data, signature) are dropped.  `first_log_index_of` = the start index handed to LogED::new_vec.
 pub uninterp spec fn first_log_index_of(r: TxReceiptED) -> U64ED;
+// the gas the receipt records for its own transaction (the `gas_used` argument of TxReceiptED::new; C06: the cumulative figure
+// is the running sum of exactly these)
+pub uninterp spec fn gas_used_of(r: TxReceiptED) -> u64;
+// `output.as_ref().map(|o| o.gas_used()).unwrap_or(d)`: the gas revm reports, d for a transaction it refused before execution
+pub uninterp spec fn exec_gas(o: Option<ExecutionResult>) -> Option<u64>;
+#[verifier::external_body]
+pub fn out_gas_or(o: &Option<ExecutionResult>, d: u64) -> (r: u64)
+    ensures r == (match exec_gas(*o) { Some(g) => g, None => d }), (*o is None) == (exec_gas(*o) is None),
+{ unimplemented!() }
 impl TxReceiptED {
     #[verifier::external_body]
     pub fn new_indexed(block_hash: B256ED, block_number: U64ED, contract_address: Option<AddressED>, from: AddressED, to: Option<AddressED>,
-                       transaction_hash: B256ED, transaction_index: U64ED, cumulative_gas_used: U64ED, start_log_index: U64ED) -> (r: Result<TxReceiptED, VErr>)
+                       transaction_hash: B256ED, transaction_index: U64ED, gas_used: u64, cumulative_gas_used: U64ED, start_log_index: U64ED) -> (r: Result<TxReceiptED, VErr>)
         ensures r is Ok ==> (r->Ok_0).block_hash == block_hash && (r->Ok_0).block_number == block_number
             && (r->Ok_0).transaction_hash == transaction_hash && (r->Ok_0).transaction_index == transaction_index
             && (r->Ok_0).contract_address == contract_address && (r->Ok_0).from == from && (r->Ok_0).to == to
-            && (r->Ok_0).cumulative_gas_used == cumulative_gas_used && first_log_index_of(r->Ok_0) == start_log_index,
+            && (r->Ok_0).cumulative_gas_used == cumulative_gas_used && first_log_index_of(r->Ok_0) == start_log_index
+            && gas_used_of(r->Ok_0) == gas_used,
     { unimplemented!() }
 }
 impl TxED {
